@@ -988,6 +988,22 @@ func (n *normalizer) stmt(s ast.Stmt, info *types.Info, stack map[*types.Func]bo
 			}
 		}
 	case *ast.IfStmt:
+		// "if A || helper(..) { S } else { T }" / "if A && helper(..) { S } else { T }": the helper is evaluated only when A
+		// does not decide; split the test so that the helper's call becomes a condition of its own (expanded below)
+		if x.Init == nil {
+			if rep, ok := n.splitShortCircuit(x, info, stack, depth); ok {
+				return rep
+			}
+		} else if _, isAssign := x.Init.(*ast.AssignStmt); isAssign && n.wouldSplit(x, info, stack, depth) {
+			// "if v, ok := m[k]; !ok || helper(..) {": the init statement moves in front, inside a block of its own
+			init := x.Init
+			x.Init = nil
+			if rep, ok := n.splitShortCircuit(x, info, stack, depth); ok {
+				n.changed[n.curFile] = true
+				return []ast.Stmt{&ast.BlockStmt{Lbrace: x.Pos(), List: append([]ast.Stmt{init}, rep...), Rbrace: x.End()}}
+			}
+			x.Init = init
+		}
 		// "if v := helper(..); cond(v) { S }": the test moves to where the helper decides what v is
 		if as, ok := x.Init.(*ast.AssignStmt); ok {
 			init := x.Init
@@ -2514,4 +2530,104 @@ func sortedKeys(m map[string]int) []string {
 	}
 	sort.Strings(ks)
 	return ks
+}
+
+// splitShortCircuit rewrites "if A op helper(..) { S } else { T }" (op one of ||, &&; the helper a function that is
+// not in the reference tree and is not a one-line expression) into nested ifs with the same behaviour:
+//
+//	A || H:  if A { S } else if H { S } else { T }
+//	A && H:  if A { if H { S } else { T } } else { T }
+//
+// S (or T) is duplicated, which is fine for branches without labels; break/continue inside them keep their meaning.
+func (n *normalizer) splitShortCircuit(x *ast.IfStmt, info *types.Info, stack map[*types.Func]bool, depth int) ([]ast.Stmt, bool) {
+	be, ok := unparen(x.Cond).(*ast.BinaryExpr)
+	if !ok || (be.Op != token.LOR && be.Op != token.LAND) || depth > 3 {
+		return nil, false
+	}
+	// the right operand starts with a call of an expandable helper
+	y := be.Y
+	slot := firstEvaluated(&y)
+	if slot == nil {
+		return nil, false
+	}
+	call, ok := unparen(*slot).(*ast.CallExpr)
+	if !ok {
+		return nil, false
+	}
+	fn, d := n.callee(info, call)
+	if fn == nil || d == nil || stack[fn] || eligible(d, false) != "" {
+		return nil, false
+	}
+	hasLabel := func(b ast.Node) bool {
+		found := false
+		if b == nil {
+			return false
+		}
+		ast.Inspect(b, func(nd ast.Node) bool {
+			if _, ok := nd.(*ast.LabeledStmt); ok {
+				found = true
+			}
+			return !found
+		})
+		return found
+	}
+	if hasLabel(x.Body) || (x.Else != nil && hasLabel(x.Else)) {
+		return nil, false
+	}
+	cloneBlock := func(b *ast.BlockStmt) *ast.BlockStmt { return n.clone(b).(*ast.BlockStmt) }
+	cloneElse := func(e ast.Stmt) ast.Stmt {
+		if e == nil {
+			return nil
+		}
+		return n.clone(e).(ast.Stmt)
+	}
+	var out *ast.IfStmt
+	if be.Op == token.LOR {
+		inner := &ast.IfStmt{If: x.If, Cond: be.Y, Body: cloneBlock(x.Body), Else: x.Else}
+		out = &ast.IfStmt{If: x.If, Cond: be.X, Body: x.Body, Else: inner}
+		// the inner test is a statement of its own: expand it where it stands
+		if rep := n.stmt(inner, info, stack, depth+1); len(rep) != 1 || rep[0] != ast.Stmt(inner) {
+			out.Else = &ast.BlockStmt{Lbrace: x.Pos(), List: rep, Rbrace: x.End()}
+		}
+	} else {
+		inner := &ast.IfStmt{If: x.If, Cond: be.Y, Body: x.Body, Else: cloneElse(x.Else)}
+		body := &ast.BlockStmt{Lbrace: x.Body.Lbrace, List: []ast.Stmt{inner}, Rbrace: x.Body.Rbrace}
+		if rep := n.stmt(inner, info, stack, depth+1); len(rep) != 1 || rep[0] != ast.Stmt(inner) {
+			body.List = rep
+		}
+		out = &ast.IfStmt{If: x.If, Cond: be.X, Body: body, Else: x.Else}
+	}
+	n.changed[n.curFile] = true
+	// the left operand may itself begin with a helper call
+	return n.stmt(out, info, stack, depth+1), true
+}
+
+// wouldSplit: the condition of x is "A op helper(..)" with an expandable helper as the start of the right operand, and
+// the init statement does not itself call an expandable helper (that case is handled as an assignment followed by a test).
+func (n *normalizer) wouldSplit(x *ast.IfStmt, info *types.Info, stack map[*types.Func]bool, depth int) bool {
+	be, ok := unparen(x.Cond).(*ast.BinaryExpr)
+	if !ok || (be.Op != token.LOR && be.Op != token.LAND) || depth > 3 {
+		return false
+	}
+	y := be.Y
+	slot := firstEvaluated(&y)
+	if slot == nil {
+		return false
+	}
+	call, ok := unparen(*slot).(*ast.CallExpr)
+	if !ok {
+		return false
+	}
+	fn, d := n.callee(info, call)
+	if fn == nil || d == nil || stack[fn] || eligible(d, false) != "" {
+		return false
+	}
+	if as, ok := x.Init.(*ast.AssignStmt); ok && len(as.Rhs) == 1 {
+		if c2, ok := unparen(as.Rhs[0]).(*ast.CallExpr); ok {
+			if f2, d2 := n.callee(info, c2); f2 != nil && d2 != nil {
+				return false
+			}
+		}
+	}
+	return true
 }
